@@ -32,6 +32,7 @@ Lemma header_sim o fb lb rest :
   end.
 Proof.
   intros Hfb Hlen. cbn [decode_item_header]. destruct (fb_dec fb Hfb) as [D1 D2]. rewrite D1, D2, <- Hlen.
+  rewrite shorter_spec.
   assert ((length (lb ++ rest) <? length lb)%nat = false) as -> by (apply Nat.ltb_ge; rewrite app_length; lia).
   rewrite firstn_len_app, skipn_len_app. reflexivity.
 Qed.
